@@ -171,11 +171,20 @@ impl Lift for SubWordValue {
                 _ => value,
             };
 
+            // The shift amount is an arbitrary constant from the bytecode, so the region
+            // it moves the mask to has to be checked against the bounds of the word: a
+            // sub-word that starts beyond the end of the word describes no bits at all,
+            // and one that starts inside it cannot extend past its end.
+            let Some(offset) = offset.checked_add(shift).filter(|o| *o < WORD_SIZE_BITS) else {
+                return None;
+            };
+            let size = length.min(WORD_SIZE_BITS - offset);
+
             // If we find a word, we can easily construct the return data
             let payload = SVD::SubWord {
                 value,
-                offset: offset + shift,
-                size: length,
+                offset,
+                size,
             };
 
             Some(payload)
